@@ -221,4 +221,101 @@ theorem general_eq {rules : AuthRules} {f : Fetch} {ev : Event} {p : Levels}
   rw [hp] at hp'; cases hp'
   exact ⟨pl, hpl, hwf, hof, authCheckR_general_eq h1 h2 h3 hc hcit hf hfed hcreator hj hpl ha⟩
 
+/-! ## The helper can deserialize whatever the rules can read -/
+
+theorem intMapEntries_get_ok {rules : AuthRules} {keyOf : Str → Option Str} :
+    ∀ {kvs : List (Str × JVal)} {m : PLMap}, intMapEntries rules keyOf kvs = .ok m →
+      ∀ k v, Obj.get kvs k = some v → ∃ i, plInt rules v = .ok i := by
+  intro kvs
+  induction kvs with
+  | nil => intro m _ k v h; simp [Obj.get] at h
+  | cons kv t ih =>
+    intro m h k v hg
+    obtain ⟨k0, v0⟩ := kv
+    simp only [intMapEntries] at h
+    cases hk : keyOf k0 with
+    | none => simp [hk] at h
+    | some k' =>
+      simp only [hk, bind_eq_ok] at h
+      obtain ⟨i, hi, rest, hrest, -⟩ := h
+      simp only [Obj.get] at hg
+      by_cases hkk : k0 = k
+      · simp only [hkk, if_true, Option.some.injEq] at hg
+        subst hg
+        exact ⟨i, hi⟩
+      · simp only [hkk, if_false] at hg
+        exact ih hrest k v hg
+
+theorem intField_ok_of_getAsInt {rules : AuthRules} {c : Obj} (fld : PLField)
+    (h : okB (getAsInt rules c fld) = true) : ∃ x, intField c fld.key (helperDefault fld) = .ok x := by
+  obtain ⟨o, ho⟩ := okB_iff.mp h
+  unfold getAsInt at ho
+  unfold intField
+  cases hg : Obj.get c fld.key with
+  | none => exact ⟨_, rfl⟩
+  | some v =>
+    simp only [hg, exceptMap_eq_ok] at ho
+    obtain ⟨i, hi, -⟩ := ho
+    exact ⟨i, plInt_serde_of_ok hi⟩
+
+theorem mapField_ok_of_getAsIntMap {rules : AuthRules} {c : Obj} {key : Str} {keyOf : Str → Option Str}
+    {m : Option PLMap} (h : getAsIntMap rules c key keyOf = .ok m) : ∃ l, mapField c key keyOf = .ok l := by
+  unfold getAsIntMap at h
+  unfold mapField
+  cases hg : Obj.get c key with
+  | none => exact ⟨_, rfl⟩
+  | some v =>
+    cases v with
+    | obj kvs =>
+      simp only [hg, exceptMap_eq_ok] at h
+      obtain ⟨l, hl, -⟩ := h
+      exact ⟨l, intMapEntries_serde_of_ok hl⟩
+    | _ => simp [hg] at h
+
+/-- Whatever the rules of a version can read in full, the helper can deserialize. -/
+theorem ofContent_isSome_of_authWF {rules : AuthRules} {c : Obj} (h : authWF rules c = true) :
+    (ofContent c).isSome = true := by
+  obtain ⟨hint, ⟨me, hme⟩, ⟨mu, hmu⟩, ⟨mn, hmn⟩⟩ := authWF_fields h
+  obtain ⟨x1, h1⟩ := intField_ok_of_getAsInt .ban (hint _)
+  obtain ⟨x2, h2⟩ := mapField_ok_of_getAsIntMap hme
+  obtain ⟨x3, h3⟩ := intField_ok_of_getAsInt .eventsDefault (hint _)
+  obtain ⟨x4, h4⟩ := intField_ok_of_getAsInt .invite (hint _)
+  obtain ⟨x5, h5⟩ := intField_ok_of_getAsInt .kick (hint _)
+  obtain ⟨x6, h6⟩ := intField_ok_of_getAsInt .redact (hint _)
+  obtain ⟨x7, h7⟩ := intField_ok_of_getAsInt .stateDefault (hint _)
+  obtain ⟨x8, h8⟩ := mapField_ok_of_getAsIntMap hmu
+  obtain ⟨x9, h9⟩ := intField_ok_of_getAsInt .usersDefault (hint _)
+  have h10 : ∃ x, notificationsField c = .ok x := by
+    unfold plNotifications getAsIntMap at hmn
+    unfold notificationsField
+    cases hg : Obj.get c (bs "notifications") with
+    | none => exact ⟨_, rfl⟩
+    | some v =>
+      cases v with
+      | obj o =>
+        simp only [hg, exceptMap_eq_ok] at hmn
+        obtain ⟨l, hl, -⟩ := hmn
+        simp only [intField]
+        cases hr : Obj.get o (bs "room") with
+        | none => exact ⟨_, rfl⟩
+        | some w =>
+          obtain ⟨i, hi⟩ := intMapEntries_get_ok hl _ _ hr
+          exact ⟨i, plInt_serde_of_ok hi⟩
+      | _ => simp [hg] at hmn
+  obtain ⟨x10, h10⟩ := h10
+  have : ofContentR c = .ok ⟨x1, x2, x3, x4, x5, x6, x7, x8, x9, x10⟩ := by
+    simp only [ofContentR]
+    change intField c PLField.ban.key (helperDefault .ban) = _ at h1
+    change intField c PLField.eventsDefault.key (helperDefault .eventsDefault) = _ at h3
+    change intField c PLField.invite.key (helperDefault .invite) = _ at h4
+    change intField c PLField.kick.key (helperDefault .kick) = _ at h5
+    change intField c PLField.redact.key (helperDefault .redact) = _ at h6
+    change intField c PLField.stateDefault.key (helperDefault .stateDefault) = _ at h7
+    change intField c PLField.usersDefault.key (helperDefault .usersDefault) = _ at h9
+    simp only [PLField.key, helperDefault] at h1 h3 h4 h5 h6 h7 h9
+    unfold plEvents at hme
+    unfold plUsers at hmu
+    simp only [h1, h2, h3, h4, h5, h6, h7, h8, h9, h10, ok_bind]
+  simp [ofContent, this]
+
 end Ruma.PowerLevels
